@@ -71,6 +71,17 @@ def mapLookup (m : SMap) (k : String) : String × Bool :=
   | none => ("", false)
 def mapIndex (m : SMap) (k : String) : String := (mapLookup m k).1
 
+/-- Go maps with string keys and arbitrary values: association lists without duplicate keys -/
+def mapLookupT {α : Type} [Inhabited α] (m : List (String × α)) (k : String) : α × Bool :=
+  match m.find? (·.1 == k) with
+  | some kv => (kv.2, true)
+  | none => (default, false)
+/-- `m[k] = v` -/
+def mapSetT {α : Type} (m : List (String × α)) (k : String) (v : α) : List (String × α) :=
+  m.filter (·.1 != k) ++ [(k, v)]
+/-- `delete(m, k)` -/
+def mapDeleteT {α : Type} (m : List (String × α)) (k : String) : List (String × α) := m.filter (·.1 != k)
+
 /-- `for _, x := range xs { … return … }`: the first iteration that returns decides. -/
 def rangeFirst {α β : Type} (xs : List α) (f : α → Option β) : Option β := xs.findSome? f
 
